@@ -111,6 +111,22 @@ def handle (cmd : String) (j : J) : Except String J :=
     pure (J.arr (seqJ comp s0 :: tr.map fun r => match r with
       | .ok s => seqJ comp s
       | .error e => J.obj [("err", J.str (errStr e))]))
+  | "pyindex" => do
+    -- spec validation against CPython: `s[i]` on a plain string (`none` = IndexError)
+    let s ← (← j.get "s").toStr
+    match PySlice.index s.toList (← (← j.get "i").toInt) with
+    | some ch => pure (J.str (String.ofList [ch]))
+    | none => pure (J.obj [("err", J.str "IndexError")])
+  | "specchain" => do
+    -- spec validation against CPython: the plain-string side of `seq_chain_spec`
+    -- (`SeqWrap.specRun`: slices, indexing, reverse complement on a `str`)
+    let t ← (← j.get "parent").toStr
+    let nucleic ← (← j.get "nucleic").toBool
+    let comp ← compOf (← j.get "comp")
+    let ops ← (← (← j.get "ops").toList).mapM parseSOp
+    match SeqWrap.specRun comp nucleic t.toList ops with
+    | some r => pure (J.str (String.ofList r))
+    | none => pure (J.obj [("err", J.str "IndexError")])
   | _ => throw s!"unknown command {cmd}"
 
 def main : IO Unit := driverLoop handle
